@@ -161,6 +161,7 @@ def run_cases(ctx, mon, ncases, body, wall=None, only_case=None):
         ctx.case = {'seed': ctx.seed, 'tier': ctx.tier, 'shard': ctx.shard, 'case': case}
         ctx.history = []
         ex = Exec(L, ctx, mon)
+        ctx.ex = ex
         ctx.cases += 1
         if getattr(mon, 'budget', None) is not None:
             mon.budget.start()
@@ -188,6 +189,7 @@ def run_cases(ctx, mon, ncases, body, wall=None, only_case=None):
     signal.alarm(0)
     ctx.history = None
     ctx.case = None
+    ctx.ex = None
 
 
 def history(L, rng, ex, nops, maxlen, profile='wf', weights=None, esc=False):
